@@ -23,6 +23,7 @@ RULE = (
     "flag initially True and False and through a stream and through a path. quick: (b),(c) complete for stream + flag True, every 7th point (plus the first four and the last) "
     "for the other three combinations, truncation at every chunk boundary; thorough: everything complete. distinct = (file, fault kind, "
     "position, flag, access); non-trivial = the injected fault fired and the load raised, or fired inside a nested load"
+    " Also (added while the seeded-change rounds of DESIGN section 9 ran): Read failures rotate over 12 kinds (errno values, non-OSError exceptions, a BaseException); the process's open descriptors are compared before / after every load while the exception is held; the file is also named as bytes, os.DirEntry, an __fspath__ object, a pure path and a str subclass."
 )
 ASSUMPTIONS = [
     "files opened by the library from a path are observed by wrapping pathlib.Path.open from the check; chunk boundaries by wrapping rv.readers.reader.chunks",
